@@ -437,7 +437,16 @@ def stream_xcost(rng, n):
     return ops
 
 
-def gen_poisson(rng, big=False):
+def gen_poisson(rng, big=False, rare=False):
+    if rare:
+        # rare events and a tight epsilon: means of 1e-5 .. 0.3, epsilon down to 1e-12 (the quantile then
+        # lies several standard deviations above the mean of a strongly skewed distribution)
+        rd = rng.choice([10 ** 3, 10 ** 4, 10 ** 5, 10 ** 7])
+        rn = rng.randint(1, 5)
+        delta = rng.randint(1, max(1, min(1000, (3 * rd) // (10 * rn))))
+        ed = rng.choice([10 ** 6, 10 ** 8, 10 ** 9, 10 ** 10, 10 ** 12])
+        en = rng.randint(1, 9)
+        return rn, rd, en, ed, delta
     rd = rng.choice([1, 2, 3, 7, 10, 100, 1000])
     rn = rng.randint(1, 5 * rd if not big else 40 * rd)
     ed = rng.choice([10, 100, 1000, 10 ** 6, 10 ** 9])
@@ -449,7 +458,7 @@ def gen_poisson(rng, big=False):
 def stream_poisson(rng, n):
     ops = []
     for _ in range(n):
-        rn, rd, en, ed, delta = gen_poisson(rng, big=(rng.random() < 0.15))
+        rn, rd, en, ed, delta = gen_poisson(rng, big=(rng.random() < 0.15)) if rng.random() < 0.88 else gen_poisson(rng, rare=True)
         # the real loop never terminates once exp(-mean) underflows (mean >~ 745): keep such
         # cases rare, each costs one watchdog period
         if rn * delta > 700 * rd and rng.random() < 0.97:
